@@ -153,6 +153,20 @@ func makeVariants(s samples.Sample, r *rand.Rand, neutral bool) []variant {
 		vs = append(vs, variant{samples.Rezip(first), append([]string{"decoy.pos=first"}, feats...)})
 		last := append(append([]samples.ZMember{}, ms...), dm...)
 		vs = append(vs, variant{samples.Rezip(last), append([]string{"decoy.pos=last"}, feats...)})
+		if s.Format == "docx" || s.Format == "xlsx" || s.Format == "pptx" {
+			// the skeleton of an EPUB / ODF package as stray members, its mimetype member
+			// with undecodable data: the package still says what it is in [Content_Types].xml
+			mt := []string{"application/epub+zip", "application/vnd.oasis.opendocument.text"}[r.Intn(2)]
+			sk := []samples.ZMember{{Name: "mimetype", Data: []byte(mt + strings.Repeat(" ", 40))},
+				{Name: "META-INF/container.xml", Data: []byte(`<?xml version="1.0"?><container xmlns="urn:oasis:names:tc:opendocument:xmlns:container" version="1.0"><rootfiles><rootfile full-path="OEBPS/content.opf" media-type="application/oebps-package+xml"/></rootfiles></container>`)}}
+			withSk := append(append([]samples.ZMember{}, sk...), ms...)
+			if r.Intn(2) == 0 {
+				withSk = append(append([]samples.ZMember{}, ms...), sk...)
+			}
+			if bad := damageMember(samples.Rezip(withSk), "mimetype", "all"); bad != nil {
+				vs = append(vs, variant{bad, []string{"decoy=foreign-skeleton", "decoy.mimetype=undecodable"}})
+			}
+		}
 	}
 	return vs
 }
@@ -492,7 +506,7 @@ func damageMember(zipData []byte, name, how string) []byte {
 		return nil
 	}
 	for _, f := range zr.File {
-		if f.Name != name || f.Method != zip.Deflate || f.CompressedSize64 < 24 {
+		if f.Name != name || f.Method != zip.Deflate || (f.CompressedSize64 < 24 && how != "all") || f.CompressedSize64 < 4 {
 			continue
 		}
 		off, err := f.DataOffset()
@@ -504,6 +518,10 @@ func damageMember(zipData []byte, name, how string) []byte {
 		switch how {
 		case "middle":
 			for i := n / 2; i < n/2+6; i++ {
+				out[off+i] = 0xFF
+			}
+		case "all":
+			for i := int64(0); i < n; i++ {
 				out[off+i] = 0xFF
 			}
 		case "start":
